@@ -11,17 +11,17 @@ Arguments APlace {P}.
 Arguments AExpr {P}.
 
 Section Upd.
-  Variables T P W S : Type.
+  Variables T P W St : Type.
   (* `self.dfg[arg.place] = wire` followed, for places through a subscript, by the recorded
      __setitem__ call (see ModelDfc.assign_place) *)
-  Variable assign : P -> W -> S -> S.
+  Variable assign : P -> W -> St -> St.
 
   (* for inp, arg in zip(func_ty.inputs, args, strict=True):
          if Inout in inp.flags:
              if not isinstance(arg, PlaceNode): next(inout_ports); continue
              self.dfg[arg.place] = next(inout_ports) ; ...                                  *)
-  Fixpoint update_inout (zs : list (FuncInput T * arg P)) (ports : list W) (s : S)
-    : option (S * list W) :=
+  Fixpoint update_inout (zs : list (FuncInput T * arg P)) (ports : list W) (s : St)
+    : option (St * list W) :=
     match zs with
     | [] => Some (s, ports)
     | (inp, a) :: zs' =>
@@ -39,7 +39,7 @@ Section Upd.
 
   (* ... assert next(inout_ports, None) is None *)
   Definition update_inout_ports (inputs : list (FuncInput T)) (args : list (arg P))
-             (ports : list W) (s : S) : option S :=
+             (ports : list W) (s : St) : option St :=
     match zip_strict inputs args with
     | None => None
     | Some zs => match update_inout zs ports s with
